@@ -416,7 +416,7 @@ pub fn gen_input(pc: Pc, rng: &mut Rng, pools: &Pools) -> (Vec<u8>, Hint) {
             v.extend_from_slice(&to_be(&el, 32));
             v.extend_from_slice(&to_be(&ml, 32));
             let body_len = match (u64::try_from(bl.clone()), u64::try_from(el.clone()), u64::try_from(ml.clone())) {
-                (Ok(a), Ok(b), Ok(c)) if a + b + c < 4000 => (a + b + c) as usize,
+                (Ok(a), Ok(b), Ok(c)) if a.saturating_add(b).saturating_add(c) < 4000 => (a + b + c) as usize,
                 _ => rng.usize(200),
             };
             let mut body = rng.bytes(body_len);
@@ -427,7 +427,7 @@ pub fn gen_input(pc: Pc, rng: &mut Rng, pools: &Pools) -> (Vec<u8>, Hint) {
                 }
             } else if rng.chance(1, 5) {
                 let (Ok(a), Ok(b)) = (usize::try_from(bl.clone()), usize::try_from(el.clone())) else { return (v, hint) };
-                for i in a..(a + b / 2).min(body.len()) {
+                for i in a.min(body.len())..a.saturating_add(b / 2).min(body.len()) {
                     body[i] = 0;
                 }
             }
